@@ -649,13 +649,18 @@ static ares_status_t ares_hosts_path(const ares_channel_t *channel,
   }
 
   if (use_env) {
-    if (path_hosts) {
-      ares_free(path_hosts);
-    }
+    const char *env_hosts = getenv("CARES_HOSTS");
 
-    path_hosts = ares_strdup(getenv("CARES_HOSTS"));
-    if (!path_hosts) {
-      return ARES_ENOMEM; /* LCOV_EXCL_LINE: OutOfMemory */
+    /* Without the variable the request uses the same file as any other */
+    if (env_hosts != NULL) {
+      if (path_hosts) {
+        ares_free(path_hosts);
+      }
+
+      path_hosts = ares_strdup(env_hosts);
+      if (!path_hosts) {
+        return ARES_ENOMEM; /* LCOV_EXCL_LINE: OutOfMemory */
+      }
     }
   }
 
